@@ -717,7 +717,10 @@ def monitor_c16(ctx):
                'for', '1 $ 2', '1 +', 'f(', 'x = [0]\nx[5]', 'd = {}\nd["k"]',
                # every spelling of a name: %...% lexemes (with blanks, dots, operators inside), names next to keywords
                '%undef%', '%a b%', '%x.y%', '%a+b%', '%undef%(1)', '%q% += 1', 'andy', 'not_x', 'None_', '_u', 'x1.y2(3)', '1 | nofn', '2 | nofn(2)',
-               'del nodict["k"]', 'nolist[0] = 1', 'nolist[0] += 1', '[][0]', '""[0]', '{}["k"]', 'keys({})[0]', '[1,2,3][1:2][4]']
+               'del nodict["k"]', 'nolist[0] = 1', 'nolist[0] += 1', '[][0]', '""[0]', '{}["k"]', 'keys({})[0]', '[1,2,3][1:2][4]',
+               # a missing key written as a value that cannot be hashed / as a number in another spelling / as None or a bool
+               '{"a": 1}[[1, 2]]', '{"a": 1}[{"x": 1}]', '{"a": 1}[keys({"a": 1})]', '{"a": 1}[None]', '{"a": 1}[True]', '{"1": 1}[1.0]', '{"a": 1}[[]]',
+               '{"a": [1]}["a"][3]', '{"a": {"b": 1}}["a"]["c"]', '[[1]][0][1]', 'get({"a": [1]}, "a")[2]']
     ctxs = ['{E}', '[1, {E}]', 'len({E})', '{{"k": {E}}}', '{{{E}: 1}}', '[1,2,3][{E}:]', '[1,2,3][{E}]', 'apply(v => {E}, 1)', '{E} if True else 1',
             '1 if {E} else 2', 'x = {E}', 'x = [0]\nx[0] = {E}', 'x = [0]\nx[0] += {E}', 'x = 1\nx += {E}', '-{E}', 'not {E}', '1 + {E}',
             'map([1], v => {E})', 'str({E})', 'sorted([2, 1], v => {E})']
